@@ -506,13 +506,9 @@ def rule_pa_join(cx, rep, port):
     p = cx.port(port)
     mod = cx.engine_mod(port)
     fd = p.func(mod, 'parse_join_expression')
-    pats = []
-    for c in walk_no_nested(fd):
-        if isinstance(c, ast.Call) and dotted(c.func) in ('re.search', 're.match') and isinstance(c.args[0], ast.Constant):
-            fl = len(c.args) > 2 and 'IGNORECASE' in node_text(c.args[2]) or any('IGNORECASE' in node_text(k.value) for k in c.keywords)
-            pats.append((c.args[0].value, fl, c))
-        if isinstance(c, ast.Call) and dotted(c.func) == '__regex__':
-            pats.append((c.args[0].value, 'i' in c.args[1].value, c))
+    from .pa import regexes_of
+    # every pattern applied in the function, wherever it is written (inline, compiled or literal at module level, applied by a helper)
+    pats = regexes_of(cx, port, fd)
     pair = [x for x in pats if '==?' in x[0]]
     if len(pair) != 1:
         rep.violated('ON pair regex', fd, 'the ON pair pattern accepting both `=` and `==` is not present')
